@@ -5,7 +5,7 @@ PROP = dict(
         level_text="TODO",
         level_note="TODO",
         technique="explicit-state BFS over the real implementation with reference-model oracle",
-        deadline=dict(quick=60, thorough=450),
+        deadline=dict(quick=90, thorough=440),
         rule="TODO",
         assumptions=[],
         targets=[
@@ -13,6 +13,6 @@ PROP = dict(
                  parts=["reno-window", "cubic-window", "reno-window3", "reno-window8", "cubic-window8", "reno-pacer", "cubic-pacer", "reno-cap", "cubic-cap"]),
             dict(name="sph", pkg="internal/ackhandler", test="TestVerifC20Sph", files=["mc/c20/sph/*.go"],
                  inject={"internal/congestion": ["mc/c20/inject/*.go"]},
-                 parts=["gate-reno", "gate-cubic", "gate-production"]),
+                 parts=["gate-reno", "gate-reno3", "gate-cubic", "gate-production"]),
         ],
     )
